@@ -319,9 +319,10 @@ def show(c, limit=400):
 
 # ------------------------------------------------------------------ one random history, executed while it is generated
 class HistoryRun:
-    def __init__(self, ctx, im, pools, tables, pr, n_ops, main, evalsample):
+    def __init__(self, ctx, im, pools, tables, pr, n_ops, main, evalsample, profile):
         self.ctx, self.im, self.pools, self.tables, self.pr = ctx, im, pools, tables, pr
         self.rng, self.n_ops, self.main, self.evalsample = ctx.rng, n_ops, main, evalsample
+        self.p_parse, self.p_main, self.p_fresh = profile  # share of parse calls / of the main parser / of fresh strings
         self.handles = []  # (tree, parser, sid, label)
         self.gops, self.gobs, self.jhist = [], [], []
         self.used = {p: [] for p in PARSERS}
@@ -339,17 +340,17 @@ class HistoryRun:
     # --- parse
     def choose_string(self, p):
         r, used = self.rng.random(), self.used[p]
-        if (r < 0.58 or not used) and self.fresh_ptr[p] < len(self.order[p]):
+        if (r < self.p_fresh or not used) and self.fresh_ptr[p] < len(self.order[p]):
             sid = self.order[p][self.fresh_ptr[p]]
             self.fresh_ptr[p] += 1
             used.append(sid)
             return sid
-        if r < 0.85 and used:
+        if r < self.p_fresh + 0.27 and used:
             return used[-self.rng.randint(1, min(len(used), 12))]  # recent: a hit
         return self.rng.choice(used)  # anything seen before: hit, or miss after eviction
 
     def do_parse(self):
-        p = self.main if self.rng.random() < 0.88 else [q for q in PARSERS if q != self.main][0]
+        p = self.main if self.rng.random() < self.p_main else [q for q in PARSERS if q != self.main][0]
         sid = self.choose_string(p)
         s = self.pools[p][sid]
         info0 = self.im.cached[p].cache_info()
@@ -498,9 +499,9 @@ class HistoryRun:
         self.im.clear()
         while len(self.gops) < self.n_ops and not self.stop:
             r = self.rng.random()
-            if r < 0.70 or not self.handles:
+            if r < self.p_parse or not self.handles:
                 self.do_parse()
-            elif r < 0.95:
+            elif r < self.p_parse + 0.8 * (1 - self.p_parse):
                 self.do_edit()
             else:
                 self.do_peek()
@@ -605,7 +606,9 @@ def run(ctx):
     beh = validate_translation(ctx, im)
     rng = ctx.rng
     n_hist, n_ops = (200, 50) if ctx.quick else (100, 3000)
-    sizes = {"cond": 700, "ahb": 400} if ctx.quick else {"cond": 1400, "ahb": 1400}
+    n_long = 2 if ctx.quick else 0  # quick tier: two long histories on the (fast) AHB parser so that evictions occur as well
+    sizes = {"cond": 700, "ahb": 1500} if ctx.quick else {"cond": 1600, "ahb": 1600}
+    profile = (0.70, 0.88, 0.58) if ctx.quick else (0.75, 0.93, 0.66)
     pools = {"cond": cond_strings(rng, sizes["cond"]), "ahb": ahb_strings(rng, sizes["ahb"])}
     t0 = time.time()
     tables = {p: [im.uncached(p, s) for s in pools[p]] for p in PARSERS}
@@ -631,9 +634,12 @@ def run(ctx):
         table_defs.append(f"Definition table_{p} : table := [" + "; ".join(rows) + "].")
     terms, runs, total = [], [], {}
     n_fail_reported, t_shrink = 0, 0.0
-    for k in range(n_hist):
-        main = "cond" if (k % 10) < (5 if ctx.quick else 3) else "ahb"
-        hr = HistoryRun(ctx, im, pools, tables, pr, n_ops, main, 0.12 if ctx.quick else 0.01)
+    for k in range(n_hist + n_long):
+        main = "cond" if (k % 10) < (5 if ctx.quick else 3) and k < n_hist else "ahb"
+        if k < n_hist:
+            hr = HistoryRun(ctx, im, pools, tables, pr, n_ops, main, 0.12 if ctx.quick else 0.01, profile)
+        else:
+            hr = HistoryRun(ctx, im, pools, tables, pr, 2600, main, 0.0, (0.75, 0.97, 0.70))
         terms.append(hr.run())
         runs.append(hr)
         for a, b in hr.stats.items():
@@ -677,9 +683,10 @@ def run(ctx):
                            "fixed_witnesses": n_wit, "shrink_s": round(t_shrink, 1)}
     ctx.add_eval(n + n_wit)
     ctx.coverage["distinct_nontrivial"] = len({t for t, r in zip(terms, runs) if r.stats["hit_after_edit"] > 0})
-    ctx.coverage["rule"] = (f"{n_hist} random histories x {n_ops} operations (70% parse: 88% on the history's main parser, 58% a fresh string / 27% one of the "
-                            "12 most recent / 15% any earlier one; 25% edits at random depth: replace / remove / append with a new Token, a new Tree or an object "
-                            "reachable from any handle, half of those also removed from their origin = moved; 5% read-backs of old handles), caches cleared before "
+    ctx.coverage["rule"] = (f"{n_hist} random histories x {n_ops} operations" + (f" + {n_long} x 2600 operations on the AHB parser (evictions)" if n_long else "") +
+                            f" ({profile[0]:.0%} parse: {profile[1]:.0%} on the history's main parser, {profile[2]:.0%} a fresh string / 27% one of the "
+                            "12 most recent / the rest any earlier one; edits (80% of the other operations) at random depth: replace / remove / append with a new Token, a new Tree or an object "
+                            "reachable from any handle, half of those also removed from their origin = moved; read-backs of old handles), caches cleared before "
                             "each history; model = run_src with the generated constants and pure_parse = table of uncached _parser.parse results; "
                             "non-trivial = distinct histories in which a string is served from the cache after a tree returned for it was edited")
     ctx.coverage["input_distribution"] = {"strings": {p: len(pools[p]) for p in PARSERS},
